@@ -98,7 +98,7 @@ void qr_driver(vf::Draw &d, vf::Ctx &ctx, size_t n, int qt, int pf, int arg, voi
     std::vector<ld> G = vla::mm(vla::transpose(Qw, n, n), Qw, n, n, n);
     for (size_t i = 0; i < n; ++i) G[i * n + i] -= 1;
     ld e = vla::norm_inf(G, n, n), b = ceps * cond.kappa;
-    ctx.see_ratio((double)(e / b));
+    if (e <= b) ctx.see_ratio((double)(e / b));      // worst ratio among comparisons that passed
     if (!(e <= b)) { ctx.fail("%s: ||Q^T Q - I||_inf = %.4Lg exceeds %.3g*n*eps*kappa(A) = %.4Lg (n=%zu kappa=%.4Lg)", what, e, C_BOUND, b, n, cond.kappa); return; }
   }
   // reconstruction: Q R = Ahat, Ahat = A pivoted by the returned P. Readings accepted (DESIGN C13 wording note):
@@ -115,7 +115,7 @@ void qr_driver(vf::Draw &d, vf::Ctx &ctx, size_t n, int qt, int pf, int arg, voi
     for (size_t i = 0; i < n; ++i) for (size_t j = 0; j < n; ++j) D[i * n + perm[j]] = QR[i * n + perm[j]] - Aw[i * n + j];
     eci = vla::norm_inf(D, n, n);
     ld best = std::min(er, std::min(ec, eci));
-    ctx.see_ratio((double)(best / b));
+    if (best <= b) ctx.see_ratio((double)(best / b));
     if (!(best <= b)) {
       ctx.fail("%s: ||Q*R - Ahat||_inf = %.4Lg (rows permuted by P) / %.4Lg (columns permuted by P) / %.4Lg (columns by P^-1): none is within %.3g*n*eps*||A|| = %.4Lg (n=%zu)", what, er, ec, eci, C_BOUND, b, n);
       return;
